@@ -70,6 +70,39 @@ def check(ctx):
     ctx.absorb(lambda sub: discovered_state(sub, package(sub.tree), "R8"), "R8", only=lambda o: o.outcome != "MISSING")
     # the column layout a KROME file is decoded with is that file's own: directive state is reset before EVERY file (shared with C12.R4 / C17.R4)
     krome_reset(ctx, pkg, "R9")
+    _r10(ctx, pkg)
+    # a reaction read from a file takes part in the equations: nothing filters reactions between the list and the ODE terms
+    # (shared with C01.R2/R3)
+
+
+# ------------------------------------------------------------------ R10  prefixes are removed as prefixes
+
+def _r10(ctx, pkg):
+    """str.strip / lstrip / rstrip take a SET of characters.  Called with a word (`line.lstrip("@format:")`) they also eat the
+    beginning of what follows (`r,r,p` -> `,r,p`).  In the modules that decode records no strip call has a multi-character
+    literal other than whitespace / quote / bracket sets; and the KROME column list is the directive line minus the directive."""
+    n = 0
+    for f in pkg.files:
+        if not (f.startswith("naunet/reactions/") or f in ("naunet/network.py", "naunet/species.py", "naunet/component.py", "naunet/chemistrydata/__init__.py")):
+            continue
+        for c in ast.walk(pkg.modules[f]):
+            if isinstance(c, ast.Call) and isinstance(c.func, ast.Attribute) and c.func.attr in ("strip", "lstrip", "rstrip") and c.args \
+                    and isinstance(c.args[0], ast.Constant) and isinstance(c.args[0].value, str):
+                n += 1
+                lit = c.args[0].value
+                wordy = len(lit) >= 2 and sum(ch.isalnum() for ch in lit) >= 2
+                ctx.check(not wordy, "R10", f"{f.rsplit('/', 1)[1]}:{c.func.attr}({lit!r})", (f, c.lineno),
+                          "a character set (punctuation / whitespace)" if not wordy else
+                          f"`.{c.func.attr}({lit!r})` removes any run of the CHARACTERS {sorted(set(lit))}, not the prefix {lit!r}: text that merely starts with one of these letters "
+                          "loses its beginning (a KROME column list `r,r,p,...` after `@format:` becomes `,r,p,...`)",
+                          expected="replace(prefix, '', 1) / slicing / removeprefix", found=ast.unparse(c)[:80])
+    fn = pkg.cls("KROMEReaction").methods.get("preprocessing")
+    st = [a for a in ast.walk(fn) if isinstance(a, ast.Assign) and any(isinstance(t, ast.Attribute) and t.attr == "reacformat" for t in a.targets)] if fn else []
+    ok = len(st) == 1 and re.fullmatch(r"\w+\.replace\('@format:', ''(, 1)?\)(\.strip\(\))?|\w+\[len\('@format:'\):\](\.strip\(\))?|\w+\.removeprefix\('@format:'\)(\.strip\(\))?",
+                                   ast.unparse(st[0].value)) is not None
+    ctx.check(ok, "R10", "KROME:@format: column list", ("naunet/reactions/kromereaction.py", st[0].lineno if st else 0),
+              "the column list is the directive line without the literal prefix `@format:`", expected="line.replace('@format:', '')", found=ast.unparse(st[0].value)[:80] if st else "no store")
+    ctx.floor("R10", "strip calls with a literal argument", n, 0)
 
 
 # ------------------------------------------------------------------ R1
@@ -419,6 +452,7 @@ U = "naunet/reactions/umistreaction.py"
 UC = "naunet/reactions/uclchemreaction.py"
 L = "naunet/reactions/leedsreaction.py"
 MUTANTS = [
+    {"name": "krome-format-lstrip", "file": "naunet/reactions/kromereaction.py", "old": 'cls.reacformat = line.replace("@format:", "")', "new": 'cls.reacformat = line.lstrip("@format:").strip()', "rules": ["R10"]},
     {"name": "initialize-skipped-for-continued-file", "edits": [
         {"file": NET, "old": "    def add_reaction_from_file(self, filename: str | Path, format: str) -> None:", "new": "    def add_reaction_from_file(self, filename: str | Path, format: str, continued: bool = False) -> None:"},
         {"file": NET, "old": "        if rclass:\n            rclass.initialize()\n        else:\n            raise RuntimeError(f\"Unknown format: {format}\")", "new": "        if not rclass:\n            raise RuntimeError(f\"Unknown format: {format}\")\n        elif not continued:\n            rclass.initialize()"}], "rules": ["R9"]},
